@@ -31,6 +31,12 @@ BAD = {
     "only-comments": b"# a\n# b\n// c\n",
     "lone-surrogate-escape": "s = '\\ud800'\n".encode(),
     "form-feed-and-vt": b"def f():\x0c\n    return\x0b 1\n",
+    "truncated-shebang": b"#!\n",
+    "shebang-env-without-interpreter": b"#!/usr/bin/env\nprint(3975)\n",
+    "shebang-only-spaces": b"#!   ",
+    "huge-hex-literal": b"x = 0x" + b"f" * 5000 + b"\ny = 7\n",
+    "huge-decimal-literal": b"let x = " + b"9" * 5000 + b";\n",
+    "surrogate-escape-in-membership-test": b"def f(mode):\n    if mode in (\"\\ud800\", \"fast\", \"slow\"):\n        return 1\n    return 0\n",
     "legacy-number-forms": b"fs.chmodSync(path, 0755);\nlet a = 08;\nlet b = 0b2;\nlet c = 1__0;\nlet d = 0x;\nlet e = 1e;\nlet f = 1.2.3;\nlet g = 09n;\n",
     "odd-rust-literals": b"fn f() -> u64 {\n    let a = 0o9;\n    let b = 1_u99;\n    let c = 0xg;\n    let d = 1e;\n    a + b + c + d as u64 + 99999999999999999999999999\n}\n",
 }
